@@ -81,6 +81,9 @@ enum SVal {
     Map(Vec<(SVal, SVal)>),
     Struct(Name, Vec<(Name, SVal)>),
     StructVariant(Name, u32, Name, Vec<(Name, SVal)>),
+    /// a type whose `Serialize` impl asks the serializer `is_human_readable()` (as `IpAddr`, `uuid`, `chrono` do):
+    /// the first form is written for human-readable formats (JSON is one), the second for compact ones
+    Hr(Box<SVal>, Box<SVal>),
 }
 
 /// serde wants `&'static str` for type / variant / field names.
@@ -125,6 +128,12 @@ fn parse_sval(c: &mut Cur<'_>) -> SVal {
                     let v = parse_sval(c);
                     c.expect(")");
                     SVal::Some(Box::new(v))
+                }
+                "hr" => {
+                    let a = parse_sval(c);
+                    let b = parse_sval(c);
+                    c.expect(")");
+                    SVal::Hr(Box::new(a), Box::new(b))
                 }
                 "ustruct" => {
                     let n = leak_name(c);
@@ -234,6 +243,13 @@ impl Serialize for SVal {
             SVal::Bytes(v) => s.serialize_bytes(v),
             SVal::None => s.serialize_none(),
             SVal::Some(v) => s.serialize_some(&**v),
+            SVal::Hr(a, b) => {
+                if s.is_human_readable() {
+                    a.serialize(s)
+                } else {
+                    b.serialize(s)
+                }
+            }
             SVal::Unit => s.serialize_unit(),
             SVal::UnitStruct(n) => s.serialize_unit_struct(n),
             SVal::UnitVariant(n, i, var) => s.serialize_unit_variant(n, *i, var),
